@@ -678,12 +678,12 @@ def generate():
         put('HeapSafe%d.lean' % ci, '\n'.join([
             '/- GENERATED by translators/heap_ir.py — do not edit. -/',
             'import PetlProofs.HeapReviewed', 'import Petl.Gen.HeapProgs', 'namespace Petl.Gen', 'open Petl.Heap', '',
-            'theorem heapChunk%d_safe : ∀ f ∈ heapChunk%d, Petl.Heap.reviewed.contains f.1 = true ∨ safe f.2 = true := by' % (ci, ci),
+            'theorem heapChunk%d_safe : ∀ f ∈ heapChunk%d, Petl.Heap.isReviewed f = true ∨ safe f.2 = true := by' % (ci, ci),
             '  decide +kernel', '', 'end Petl.Gen', '']))
     body = ['/- GENERATED by translators/heap_ir.py — do not edit. -/'] + \
            ['import PetlProofs.Gen.HeapSafe%d' % ci for ci in range(NCHUNKS)] + \
            ['namespace Petl.Gen', 'open Petl.Heap', '',
-            'theorem heapProgs_safe : ∀ f ∈ heapProgs, Petl.Heap.reviewed.contains f.1 = true ∨ safe f.2 = true := by',
+            'theorem heapProgs_safe : ∀ f ∈ heapProgs, Petl.Heap.isReviewed f = true ∨ safe f.2 = true := by',
             '  intro f hf', '  simp only [heapProgs, List.mem_append] at hf',
             '  rcases hf with ' + nested_pat(NCHUNKS)]
     nest = NCHUNKS
